@@ -15,6 +15,7 @@ use zipora::algorithms::suffix_array::{
     EnhancedSuffixArray, LcpArray, SuffixArray, SuffixArrayAlgorithm as Alg, SuffixArrayBuilder, SuffixArrayConfig,
 };
 use zipora::algorithms::Algorithm;
+use zipora::compression::dict_zip::{SuffixArrayDictionary, SuffixArrayDictionaryConfig};
 use zipora::compression::suffix_array::{SuffixArrayCompressor, SuffixArrayConfig as CompConfig};
 
 const HEADER: &str = r#"From ZV.Common Require Import Base Run.
@@ -326,6 +327,48 @@ fn compress_case(cx: &mut Ctx, preset: usize, t: &[u8], pats: &[Vec<u8>], force_
     push_coq(cx, 0, 10_000, 0, t, &obs, &cj, force_coq);
 }
 
+/// The PA-Zip dictionary's matcher: the rank range it reports for the longest prefix of `q` that
+/// occurs in the dictionary text must be the range of the suffix array of that text.
+fn dict_case(cx: &mut Ctx, variant: u64, t: &[u8], queries: &[Vec<u8>]) {
+    let n = t.len();
+    let cj = json!({"cell": "dict", "variant": variant, "text": t, "patterns": queries});
+    let mut cfg = SuffixArrayDictionaryConfig { use_memory_pool: false, ..SuffixArrayDictionaryConfig::default() };
+    if variant == 1 { cfg.min_frequency = 1; cfg.max_bfs_depth = 2; }
+    if variant == 2 { cfg.suffix_array_config.algorithm = Alg::SAIS; cfg.min_frequency = 2; }
+    let cells = ["SuffixArrayDictionary/sa_match_continuation", "SuffixArrayDictionary/da_match_max_length"];
+    for c in cells { cx.sum.cell_status(c, "S-only"); }
+    let d = match guarded(|| SuffixArrayDictionary::new(t, cfg.clone())) {
+        Err(m) => { cx.sum.fail(cells[0], None, cj, &format!("SuffixArrayDictionary::new panicked: {}", m)); return; }
+        Ok(Err(_)) => { cx.sum.dist("dict_build_refused"); return; }
+        Ok(Ok(d)) => d,
+    };
+    if d.dictionary_text() != t { cx.sum.dist("dict_text_sampled"); return; }
+    cx.sum.dist_max("dict_max_cache_states", d.cache_states() as u64);
+    let mut sa: Vec<usize> = (0..n).collect();
+    sa.sort_by(|&a, &b| t[a..].cmp(&t[b..]));
+    for q in queries {
+        // the longest prefix of q that occurs in t, and its rank range
+        let mut depth = 0;
+        while depth < q.len() && !occurrences(t, &q[..depth + 1]).is_empty() { depth += 1; }
+        let occ = occurrences(t, &q[..depth]);
+        for (ci, cell) in cells.iter().enumerate() {
+            cx.sum.eval(cell, &format!("{} {:?} {:?}", variant, t, q), !q.is_empty() && n >= 2);
+            if ci == 1 && q.is_empty() { continue; } // documented: empty input -> (0, 0, 0)
+            let r = guarded(|| if ci == 0 { d.sa_match_continuation(0, n, 0, q) } else { d.da_match_max_length(q) });
+            match r {
+                Err(m) => cx.sum.fail(cell, None, cj.clone(), &format!("query {:?} panicked: {}", q, m)),
+                Ok(ms) => {
+                    let mut why = String::new();
+                    if ms.depth != depth { why = format!("depth {} but the longest prefix of the query that occurs has length {}", ms.depth, depth); }
+                    else if ms.lo > ms.hi || ms.hi > n { why = format!("range ({}, {}) is not a rank range", ms.lo, ms.hi); }
+                    else { let mut got = sa[ms.lo..ms.hi].to_vec(); got.sort(); if got != occ { why = format!("ranks [{}, {}) list {:?}, the matched prefix occurs at {:?}", ms.lo, ms.hi, &got[..got.len().min(10)], &occ[..occ.len().min(10)]); } }
+                    if !why.is_empty() { cx.sum.fail(cell, None, cj.clone(), &format!("query {:?}: {}", &q[..q.len().min(16)], why)); }
+                }
+            }
+        }
+    }
+}
+
 // ---------- generators ----------
 fn all_strings(alpha: &[u8], max_len: usize) -> Vec<Vec<u8>> {
     let mut out: Vec<Vec<u8>> = vec![vec![]];
@@ -419,6 +462,7 @@ fn run_one(cx: &mut Ctx, c: &Value) {
         }
         Some("enhanced") => enhanced_case(cx, &t, true),
         Some("compress") => compress_case(cx, c["preset"].as_u64().unwrap_or(0) as usize, &t, &pats, true),
+        Some("dict") => dict_case(cx, c["variant"].as_u64().unwrap_or(0), &t, &pats),
         _ => {}
     }
 }
@@ -431,7 +475,7 @@ pub fn run(args: &Args) {
         (SuffixArrayCompressor::new(CompConfig { compute_lcp: true, ..CompConfig::for_realtime() }).expect("compressor"), "realtime+lcp", true),
     ];
     let mut cx = Ctx {
-        sum: Summary::new("C12", "enumerated: every string of length <= 8 over 2 letters, <= 6 over 3, <= 4 over 4 (<= 10/7/5 thorough) x the five algorithms x every pattern of length <= 3 over the alphabet plus one absent letter; generated: single symbol, long runs, periodic (periods 1-7, optional defect), Fibonacci / Thue-Morse words, random over alphabets of size 1..256, monotone ramps, byte extremes 0/255, squares, lengths 0-3 and up to 2000 (> 256 LMS suffixes), x algorithms x configuration variants (parallel path, optimize_small_alphabet off, adaptive_threshold 0 / n / n+1) x patterns (present substrings, mutated, extended, whole text, longer than text, empty, full suffix); each array is checked to be a permutation in strictly increasing suffix order, LCP/BWT/search against naive recomputation; non-trivial = text of >= 2 bytes / non-empty pattern"),
+        sum: Summary::new("C12", "enumerated: every string of length <= 9 over 2 letters, <= 7 over 3, <= 5 over 4 (<= 12/8/6 thorough) x the five algorithms x every pattern of length <= 3 over the alphabet plus one absent letter; generated: single symbol, long runs, periodic (periods 1-7, optional defect), Fibonacci / Thue-Morse words, random over alphabets of size 1..256, monotone ramps, byte extremes 0/255, squares, lengths 0-3 and up to 2000 (> 256 LMS suffixes), x algorithms x configuration variants (parallel path, optimize_small_alphabet off, adaptive_threshold 0 / n / n+1) x patterns (present substrings, mutated, extended, whole text, longer than text, empty, full suffix); each array is checked to be a permutation in strictly increasing suffix order, LCP/BWT/search against naive recomputation; non-trivial = text of >= 2 bytes / non-empty pattern"),
         shards: CoqShards::new(HEADER, 250),
         coq_budget: if args.thorough { 6000 } else { 1250 },
         comps,
@@ -459,7 +503,7 @@ pub fn run(args: &Args) {
         }
     }
     // ---- enumerated universe ----
-    let (l2, l3, l4) = if args.thorough { (10, 7, 5) } else { (8, 6, 4) };
+    let (l2, l3, l4) = if args.thorough { (12, 8, 6) } else { (9, 7, 5) };
     let mut universe: Vec<(Vec<u8>, Vec<Vec<u8>>)> = vec![];
     for (alpha, maxl, absent) in [(vec![97u8, 98], l2, 99u8), (vec![97u8, 98, 99], l3, 96), (vec![0u8, 1, 254, 255], l4, 128)] {
         let pats = small_patterns(&alpha, absent);
@@ -482,7 +526,7 @@ pub fn run(args: &Args) {
         }
     }
     // ---- generated ----
-    let ng = if args.thorough { 12000 } else { 1300 };
+    let ng = if args.thorough { 20000 } else { 2400 };
     for i in 0..ng {
         let (t, kind) = gen_text(&mut rng, if i % 16 == 0 { 2000 } else { 260 });
         cx.sum.dist(&format!("text_{}", kind));
@@ -495,6 +539,7 @@ pub fn run(args: &Args) {
         if i % 3 == 0 { core_case(&mut cx, 0, rng.below(2) * 3, &t, &pats[..pats.len().min(4)], false); }
         if i % 4 == 0 { enhanced_case(&mut cx, &t, false); }
         if i % 4 == 1 { compress_case(&mut cx, (i / 4 % 4) as usize, &t, &pats, false); }
+        if i % 4 == 2 && !t.is_empty() && t.len() <= 400 { dict_case(&mut cx, (i / 4 % 3) as u64, &t, &pats); }
     }
     // ---- a few texts at and above the default adaptive threshold (10 000) ----
     let nbig = if args.thorough { 12 } else { 3 };
